@@ -378,6 +378,9 @@ class Drillhole(Points):
                 entity_type={"primitive_type": "FLOAT"},
             )
 
+        if isinstance(value, FloatData) and value.parent is not self:
+            value = None  # the DEPTH data of another hole (handed over by a copy) is not this hole's
+
         if isinstance(value, (FloatData, type(None))):
             self._depths = value
         else:
